@@ -177,14 +177,12 @@ func (_this *markerObjectBuilder) BuildEndContainer(ctx *Context) {
 }
 
 func (_this *markerObjectBuilder) BuildArtificiallyEndContainer(ctx *Context) {
-	if !_this.isContainer {
-		// The marked object never arrived, so there is nothing to close or to
-		// mark. (Closing the child here would close the container that holds
-		// the marker and hand it to itself as an element.)
-		ctx.UnstackBuilder()
-		return
-	}
-	_this.child.BuildArtificiallyEndContainer(ctx)
+	// Either the marked object never arrived, or it is a container whose builder
+	// could not close itself (a marked container that closes itself unstacks the
+	// marker through NotifyChildContainerFinished). In both cases there is nothing
+	// to close or to mark. (Closing the child here would close the container that
+	// holds the marker and hand it to itself as an element.)
+	ctx.UnstackBuilder()
 }
 
 func (_this *markerObjectBuilder) NotifyChildContainerFinished(ctx *Context, value reflect.Value) {
